@@ -1,5 +1,7 @@
 import ObiVerif.Model.Header
 import ObiVerif.Model.Json
+import ObiVerif.Model.JsonNum
+import ObiVerif.Model.ObiHeader
 import ObiVerif.Driver.Util
 /-! line protocol for C02 (see the header comment of `harness/c02.go` for the case-line grammar) -/
 namespace ObiVerif.Driver.C02
@@ -19,8 +21,15 @@ def parseFloats (w : String) : Option Floats :=
     | [bits, lit] => do pure (bits, ← unhex lit)
     | _ => none)
 
+/-- the literal of a float: `floatLit` on the `%e` text given as data; the typed model (`Model/JsonNum.lean`: digits
+    and exponent read from that text, `fmtFloat` printing both formats itself, `eFmt` included) must print the same
+    bytes and the digits must be in normal form (hypothesis `GVal.WF` of the number theorems) — otherwise the case is
+    refused (`bad-op`, a mismatch) -/
 def floatNum (fl : Floats) (bits : String) : Option JVal :=
-  (fl.lookup bits).map (fun e => .num (ObiVerif.Json.floatLit e))
+  (fl.lookup bits).bind (fun e =>
+    let d := ObiVerif.JsonNum.Dec.ofLit e
+    let lit := ObiVerif.Json.floatLit e
+    if d.norm && ObiVerif.JsonNum.fmtFloat d == lit && ObiVerif.JsonNum.Dec.ofLit lit == d then some (.num lit) else none)
 
 def unhexE (h : String) : Option Bytes := if h = "" then some [] else unhex h
 
@@ -158,7 +167,25 @@ def fnv1a (s : String) : String :=
   let n := h.toNat
   String.ofList ((List.range 8).map (fun i => hexDigit ((n >>> (4 * (7 - i))) % 16)))
 
-def digest (m : JMems) : String := fnv1a (dumpVal (.obj m))
+mutual
+  /-- the dump that keeps Go's number kinds apart: the reader gives `float64` to every number (`F…`) -/
+  def dumpValK : JVal → String
+    | .null => "Z"
+    | .bool b => if b then "B1" else "B0"
+    | .num lit => "F" ++ b2s (ObiVerif.Json.canonNum lit)
+    | .str s => "S" ++ hex s
+    | .arr l => "L[" ++ ",".intercalate (dumpElemsK l) ++ "]"
+    | .obj m => dumpObj (dumpMemsK m)
+  def dumpElemsK : JList → List String
+    | .nil => []
+    | .cons v t => dumpValK v :: dumpElemsK t
+  def dumpMemsK : JMems → List (String × String)
+    | .nil => []
+    | .cons k v t => dumpMemsK t ++ [(hex k, dumpValK v)]
+end
+
+/-- by-value digest `/` kind-aware digest of what the reader stored -/
+def digest (m : JMems) : String := fnv1a (dumpVal (.obj m)) ++ "/" ++ fnv1a (dumpValK (.obj m))
 
 mutual
   def dupKeysV : JVal → Bool
@@ -179,7 +206,7 @@ def defsAreStr : JMems → Bool
   | .cons k v t => (if k = ObiVerif.Json.defKey then (match v with | .str _ => true | _ => false) else true) && defsAreStr t
 
 /-- digest of the empty annotation map (FNV-1a of the canonical dump `M{}` printed by the harness) -/
-def emptyDig : String := "3b71c82c"
+def emptyDig : String := "3b71c82c/3b71c82c"
 
 structure LibEnt where
   s : Nat
@@ -260,11 +287,11 @@ def layerCheck (fm : String) (shift : UInt8) (text : Bytes) (rs : List Rec) : St
 
 /-- header parser selection: `j` = ParseFastSeqJsonHeader, `g` = ParseGuessedFastSeqHeader -/
 def headerParse (hp : String) (es : List LibEnt) (defn : Bytes) : Except String (Parsed String) :=
-  if hp = "g" ∧ defn.head? ≠ some 123 ∧ defn ≠ [] then .error "obi-header"   -- ParseFastSeqOBIHeader: outside the model
+  if hp = "g" ∧ defn.head? ≠ some 123 ∧ (ObiVerif.ObiHeader.matchKey defn).isSome then .error "obi-header"   -- key=value: outside the model
   else if !libCovers es defn then .error "bad-lib"
   else
-    -- ParseFastSeqOBIHeader on an empty definition does nothing
-    let obi : Bytes → Option (Parsed String) := fun _ => some ⟨emptyDig, none⟩
+    -- ParseFastSeqOBIHeader: without a `key=` pattern it only trims (`Model/ObiHeader.lean`)
+    let obi : Bytes → Option (Parsed String) := ObiVerif.ObiHeader.parseFastSeqOBIHeader emptyDig (fun _ => none)
     let r := if hp = "g" then parseGuessed obi emptyDig (mkLibH es defn) defn
              else parseFastSeqJsonHeader emptyDig (mkLibH es defn) defn
     match r with
@@ -329,6 +356,20 @@ def rtRun (fm hp : String) (so si : UInt8) (recs : List InRec) (aug : List (Byte
     | .error e => w ++ e
     | .ok parts => (w ++ toString rs.length ++ " " ++ " | ".intercalate parts).trimAsciiEnd.toString ++ layerCheck fm si text rs
 
+/-- `cli`: the file the writers print, what `obiconvert` prints for it (chunk parser with the input offset, guessed
+    header parser, writer with offset 33), and — theorem `write_read_write_fixed_*` — a second pass changes nothing -/
+def cliRun (fm : String) (so : UInt8) (recs : List InRec) : String :=
+  if recs.any (fun r => !annOK r.ann) then "NOT-ANNOK" else
+  let rs : List (Record JMems) := recs.map (fun r => ⟨r.id, r.seq, r.qual, r.ann, r.defn⟩)
+  let obi : Bytes → Option (Parsed JMems) := ObiVerif.ObiHeader.parseFastSeqOBIHeader .nil (fun _ => none)
+  let t0 := if fm = "fastq" then (rs.map (writeFastq goJson so)).flatten else (rs.map (writeFasta goJson)).flatten
+  let back := if fm = "fastq" then readFastqG goJson obi so t0 else readFastaG goJson obi t0
+  match back with
+  | none => "w=" ++ hex t0 ++ " t1=fatal"
+  | some bs =>
+    let t1 := if fm = "fastq" then (bs.map (writeFastq goJson 33)).flatten else (bs.map (writeFasta goJson)).flatten
+    "w=" ++ hex t0 ++ " t1=" ++ hex t1 ++ " t2=eq"
+
 def byte? (w : String) : Option UInt8 := do
   let n ← w.toNat?
   if n < 256 then some (UInt8.ofNat n) else none
@@ -382,6 +423,29 @@ def run (line : String) : String :=
         | _ => "none"
       | .ok rs => s!"nrec={rs.length}"
     | _, _, _ => "bad-op"
+  | ["obik", h] =>
+    match unhex h with
+    | some b =>
+      match ObiVerif.ObiHeader.matchKey b with
+      | some (s, e) => s!"key {s} {e}"
+      | none =>
+        match ObiVerif.ObiHeader.parseFastSeqOBIHeader emptyDig (fun _ => none) b with
+        | some p => "nokey def=" ++ showDef p.defn
+        | none => "nokey fatal"
+    | none => "bad-op"
+  | "cli" :: fm :: flags :: n :: rest =>
+    if (fm ≠ "fasta" ∧ fm ≠ "fastq") ∨ flags.toList.any (fun c => !"zsx-".toList.contains c) then "bad-op" else
+    match n.toNat?, aug with
+    | some n, [flw] =>
+      match parseFloats flw with
+      | some fl =>
+        match parseInRecs fl n rest with
+        | some (recs, []) =>
+          if recs.any (fun r => r.seq = [] ∨ r.id = []) then "bad-op" else
+          cliRun fm (if flags.toList.contains 'x' then 64 else 33) recs
+        | _ => "bad-op"
+      | none => "bad-op"
+    | _, _ => "bad-op"
   | "rt" :: fm :: hp :: so :: si :: n :: rest =>
     if (fm ≠ "fasta" ∧ fm ≠ "fastq") ∨ (hp ≠ "j" ∧ hp ≠ "g") then "bad-op" else
     match byte? so, byte? si, n.toNat?, aug with
